@@ -40,7 +40,10 @@ def step (_ : Unit) (line : String) : Unit × String :=
             let back := match reconstruct shares app with
               | .ok (b', rest) => if rest.isEmpty then showBlob b' else s!"err:leftover"
               | .error e => s!"err:{e.kind}"
-            s!"ok n={shares.length} shares={showHexList (shares.map (·.data))} shares_len={b.sharesLen} back={back}"
+            let bver := match reconstruct shares app with
+              | .ok (b', _) => toString b'.shareVersion
+              | .error _ => "-"
+            s!"ok n={shares.length} shares={showHexList (shares.map (·.data))} shares_len={b.sharesLen} back={back} bver={bver}"
       | _, _, _, _ => "bad-op"
     | "recon" :: _ =>
       match (arg? ws "shares").bind parseShares, natArg? ws "app" with
@@ -91,7 +94,7 @@ def spec (_ : Unit) (op : String) (obs : String) : String :=
         | "ok" :: _ =>
           match hexListArg? os "shares", natArg? os "shares_len", arg? os "back" with
           | some shares, some k, some back =>
-            let o := SplitObs.ok shares k (parseBlobObs back)
+            let o := SplitObs.ok shares k (parseBlobObs back) (natArg? os "bver")
             if specBlob ns data signer o then "specok"
             else if shares == expectedShares ns data signer && k != shares.length && signer.isSome then
               "specfail C11/shares-len-ignores-signer shares_len differs from the number of shares produced (signer)"
